@@ -32,6 +32,8 @@ TEMPLATES = [
     'DEFB %{bin8},{b}', 'DEFB "1",{b}', 'DEFB {b}*2+1', 'DEFW {w}/2', 'DEFB "$5",{b}',
     # strings with escapes followed by strings with letters, character operands
     'DEFM "C:\\\\","Ab",{b}', 'DEFM "a\\"b","Cd",{b}', 'DEFB "\\\\",{b},"Ef"', 'LD A,"B"', 'CP "a"', 'DEFB "a"+{b2},"Q"', 'LD (IX+{o}),"z"', 'DEFM "Hi;$1f ab",{b}',
+    # lower-case mnemonics with strings that contain register names and hex-like text
+    'defm "SIXHIXLIYHIYL",{b}', 'defb "ixh",{b},"IYL"', 'defm "af\'",{b}', 'ld a,"H"', 'defw "A"+{b2},{w}',
 ]
 SPELLINGS = ('dec', 'hex', 'hexl')
 TARGETS = [(10, 0), (16, 0), (16, 1), (16, 2), (10, 1), (0, 2), (0, 1)]     # (base, case)
